@@ -122,7 +122,13 @@ def is_error_exit(body, bb):
 
 
 def error_exit_blocks(body):
-    return {i for i in range(body.n) if is_error_exit(body, i)}
+    out = {i for i in range(body.n) if is_error_exit(body, i)}
+    # the `?` written out by hand: `Err(v) => return Err(v)` - a block that stores an Err(..) into the return place
+    for i, j, s in body.assigns():
+        if s["p"]["l"] == 0 and not s["p"].get("p") and s["r"]["k"] == "agg" and s["r"].get("variant") == "Err" and \
+                str(s["r"].get("adt", "")).endswith("result::Result"):
+            out.add(i)
+    return out
 
 
 def postdominated_modulo_errors(body, start_bb, must_blocks, extra_avoid=()):
